@@ -50,9 +50,11 @@ Accepts(c) == FailingParts(c) = {}
 (* L2: the security evaluation as the code performs it: requirements in order, the schemes *)
 (* of a requirement in sorted order, a requirement abandoned at its first rejected scheme, *)
 (* evaluation stops at the first satisfied requirement.                                    *)
+Declared == {"A", "B", "C"}              \* the schemes components.securitySchemes declares; "U" is not among them
 RECURSIVE CallsOfReq(_, _)
 CallsOfReq(r, accepts) ==
    IF r = <<>> THEN <<>>
+   ELSE IF Head(r) \notin Declared THEN <<>>          \* looked up before the callback is asked: abandoned without a call
    ELSE IF Head(r) \in accepts THEN <<Head(r)>> \o CallsOfReq(Tail(r), accepts) ELSE <<Head(r)>>
 RECURSIVE ExpectedCalls(_, _)
 ExpectedCalls(es, accepts) ==
